@@ -296,7 +296,7 @@ impl Driver {
                 if qc.verify(c.genesis.hash(), EPOCH, &c.schedule).is_ok() {
                     return None; // all really signed: it is valid, not an invalid class
                 }
-                self.w.labels.forged_agg.insert(ByteFmt::encode(&qc.signature));
+                self.w.labels.forged_agg.insert(vcore::bft::agg_key(&qc.signers, &ByteFmt::encode(&qc.signature)));
                 Some(f.sign(b, ChonkyMsg::ReplicaNewView(ReplicaNewView { justification: ProposalJustification::Commit(qc) })))
             }
         }
